@@ -32,6 +32,7 @@ var bPool = []string{"a", "b", "e", "x", "y", "f", "arguments", "v"}
 type bscope struct {
 	parent *bscope
 	isFunc bool
+	inWith bool // inside a with body (same function)
 	lex    map[string]bool
 	vars   map[string]bool // declared here or hoisted through
 }
@@ -57,12 +58,17 @@ func (s *bscope) addVar(n string) {
 	}
 }
 func newB(parent *bscope, isFunc bool) *bscope {
-	return &bscope{parent: parent, isFunc: isFunc, lex: map[string]bool{}, vars: map[string]bool{}}
+	b := &bscope{parent: parent, isFunc: isFunc, lex: map[string]bool{}, vars: map[string]bool{}}
+	if parent != nil && !isFunc {
+		b.inWith = parent.inWith
+	}
+	return b
 }
 
 type bgen struct {
 	r      *Rng
 	budget int
+	sloppy bool // a classic script: with is allowed, function declarations only at function level
 }
 
 func (g *bgen) nm() string { return bPool[g.r.Intn(len(bPool))] }
@@ -104,7 +110,16 @@ func (g *bgen) stmt(sc *bscope, depth int) *bstmt {
 	deep := depth >= 3
 	for try := 0; try < 6; try++ {
 		n := g.nm()
-		switch g.r.Intn(10) {
+		switch g.r.Intn(12) {
+		case 10:
+			return &bstmt{kind: "eval"}
+		case 11:
+			if deep || !g.sloppy {
+				continue
+			}
+			ws := newB(sc, false)
+			ws.inWith = true
+			return &bstmt{kind: "with", body: g.stmts(ws, depth+1, g.r.Range(1, 3))}
 		case 0, 1:
 			if n == "arguments" || !sc.canVar(n) {
 				continue
@@ -180,6 +195,9 @@ func (g *bgen) stmt(sc *bscope, depth int) *bstmt {
 				}
 				sc.addVar(n)
 			} else {
+				if g.sloppy {
+					continue // Annex B function-in-block is outside the modelled fragment
+				}
 				if !sc.canLex(n) {
 					continue
 				}
@@ -215,6 +233,10 @@ func jsOf(ss []*bstmt, ind string) string {
 			fmt.Fprintf(&sb, "%slet %s;\n", ind, s.name)
 		case "ref":
 			fmt.Fprintf(&sb, "%s%s;\n", ind, s.name)
+		case "eval":
+			fmt.Fprintf(&sb, "%seval(\"\");\n", ind)
+		case "with":
+			fmt.Fprintf(&sb, "%swith ({}) {\n%s%s}\n", ind, jsOf(s.body, ind+"  "), ind)
 		case "block":
 			fmt.Fprintf(&sb, "%s{\n%s%s}\n", ind, jsOf(s.body, ind+"  "), ind)
 		case "try":
@@ -247,6 +269,10 @@ func coqStmts(ss []*bstmt) string {
 			l = append(l, "SLet "+cname(s.name))
 		case "ref":
 			l = append(l, "SRef "+cname(s.name))
+		case "eval":
+			l = append(l, "SEval")
+		case "with":
+			l = append(l, "SWith "+coqStmts(s.body))
 		case "block":
 			l = append(l, "SBlock "+coqStmts(s.body))
 		case "try":
@@ -316,9 +342,12 @@ func genScopeBuildCases(r *Rng, n int, st *Stats, cf *caseSink) {
 		want = 40
 	}
 	for tries := 0; len(items) < want && tries < 6*want; tries++ {
-		g := &bgen{r: r, budget: 30}
+		g := &bgen{r: r, budget: 30, sloppy: r.Chance(40)}
 		prog := g.stmts(newB(nil, true), 0, r.Range(2, 6))
-		src := jsOf(prog, "") + "export {};\n"
+		src := jsOf(prog, "")
+		if !g.sloppy {
+			src += "export {};\n"
+		}
 		forest, ok := realForest(src)
 		if !ok {
 			st.Histogram["scopebuild-rejected"]++
